@@ -2,7 +2,8 @@
     Statements only.  async-raft-ext is trusted: its answer to client_write is an input of
     the answer chain ([world]), and "every node applies the committed log in order" is the
     premise under which the convergence theorems speak about [run log]. *)
-From RN Require Import Base.Res Cluster.Ack Cluster.Converge Cluster.AckProofs Cluster.ConvergeProofs.
+From RN Require Import Base.Res Cluster.Ack Cluster.Converge Cluster.AckProofs Cluster.ConvergeProofs
+  Cluster.CommitRule Cluster.CommitRuleProofs.
 Local Open Scope N_scope.
 
 (** A publish/remove answered with success went through raft.client_write with an Ok answer —
@@ -55,3 +56,30 @@ Proof. exact tmp_overtake_refuted. Qed.
 Theorem C06_ack_refuted_old : exists is_add w,
   w_raft_present w = true /\ acked (answer_old is_add w) = true /\ committed (answer_old is_add w) = false.
 Proof. exact ack_refuted_old. Qed.
+
+(** The premise "client_write Ok => committed by a majority" at the level of the library's own
+    commit rule (async-raft-ext 0.6.3 [calculate_new_commit_index] / [replicate_client_request]):
+    a commit index chosen by the rule is matched by a strict majority of the entries it was computed
+    from; with every voting member tracked in [nodes] (what an ELECTED leader sets up) that is a
+    majority of the cluster. *)
+Theorem C06_new_commit_majority : forall es cur t,
+  cur < new_commit es cur t -> (length es < 2 * matched_by (new_commit es cur t) es)%nat.
+Proof. exact new_commit_majority. Qed.
+
+Theorem C06_commit_needs_majority_when_tracked : forall nodes members self_last cur t,
+  nodes <> [] ->
+  (forall p, In p nodes -> mem (fst p) members = true) ->
+  length members = S (length nodes) ->
+  cur < commit_of_write nodes members self_last cur t ->
+  (length members < 2 * matched_by (commit_of_write nodes members self_last cur t)
+                                    (leader_entries nodes members self_last))%nat.
+Proof. exact commit_needs_majority_when_tracked. Qed.
+
+(** ... and false when the joined voters are still tracked as non-voters ([nodes] empty): the first
+    leader of a cluster formed by joins commits alone — recorded finding
+    `ack-without-majority:first-leader`, reproduced on the real binary *)
+Theorem C06_commit_without_majority_refuted : exists members self_last cur t,
+  length members = 3%nat /\
+  commit_of_write [] members self_last cur t = fst self_last /\ cur < fst self_last /\
+  matched_by (fst self_last) [self_last] = 1%nat.
+Proof. exact commit_without_majority_refuted. Qed.
